@@ -165,8 +165,53 @@ done:
   return 1;
 }
 
+
+/* g11r ss w h cs off pad dither fancy cropx cropw seed : libjpeg API.  jpeg_read_scanlines() into rows that start `off` bytes into a canary
+   field (so that rows are misaligned for 16-/32-bit stores) and are `pad` bytes apart: RGB565 (cs 16, 2 bytes per pixel) and the extended
+   RGB colourspaces, every dither mode, merged and separate upsampling, with a horizontal crop.  Every byte outside the documented row
+   extents (output_width x bytes per pixel) must keep its canary value. */
+static int c11_g11r(toks_t *t)
+{
+  int ss = (int)tl(t, 1), w = (int)tl(t, 2), h = (int)tl(t, 3), cs = (int)tl(t, 4), off = (int)tl(t, 5), pad = (int)tl(t, 6), dither = (int)tl(t, 7), fancy = (int)tl(t, 8), cropx = (int)tl(t, 9), cropw = (int)tl(t, 10), x, y;
+  unsigned long long seed = (unsigned long long)tll(t, 11); unsigned char *rgb = (unsigned char *)malloc((size_t)w * h * 3), *jb = NULL, *field = NULL; size_t js = 0, fl = 0, rowb, pitch, i; const char *bad = NULL; static char msg[200];
+  tjhandle hc = tj3Init(TJINIT_COMPRESS); struct jpeg_decompress_struct d; my_err_t e;
+  for (i = 0; i < (size_t)w * h * 3; i++) rgb[i] = (unsigned char)(c03_mix(seed + i) % 256ULL);
+  tj3Set(hc, TJPARAM_SUBSAMP, ss); tj3Set(hc, TJPARAM_QUALITY, 90);
+  if (tj3Compress8(hc, rgb, w, 0, h, TJPF_RGB, &jb, &js) < 0) { printf("R skip compress\n"); printf("O ok\n"); free(rgb); tj3Destroy(hc); return 1; }
+  d.err = my_err_init(&e);
+  jpeg_create_decompress(&d);
+  if (setjmp(e.jb)) { printf("R skip err %d\n", e.code); printf("O fail g11r: libjpeg error %d decoding a file written by the library\n", e.code); jpeg_destroy_decompress(&d); free(field); free(rgb); tj3Free(jb); tj3Destroy(hc); return 1; }
+  jpeg_mem_src(&d, jb, (unsigned long)js);
+  jpeg_read_header(&d, TRUE);
+  d.out_color_space = (J_COLOR_SPACE)cs; d.dither_mode = (J_DITHER_MODE)dither; d.do_fancy_upsampling = fancy;
+  jpeg_start_decompress(&d);
+  if (cropw > 0) { JDIMENSION xo = (JDIMENSION)(cropx % (int)d.output_width), cw = (JDIMENSION)cropw; if (xo + cw > d.output_width) cw = d.output_width - xo; jpeg_crop_scanline(&d, &xo, &cw); }
+  rowb = (size_t)d.output_width * (cs == JCS_RGB565 ? 2 : (size_t)d.output_components);
+  pitch = rowb + (size_t)pad;
+  fl = (size_t)off + pitch * d.output_height + 64;
+  field = (unsigned char *)malloc(fl); memset(field, 0xEE, fl);
+  while (d.output_scanline < d.output_height) { JSAMPROW rp = field + off + (size_t)d.output_scanline * pitch; if (jpeg_read_scanlines(&d, &rp, 1) != 1) break; }
+  for (i = 0; i < fl && !bad; i++) {
+    int inside = 0;
+    if (i >= (size_t)off) { size_t r = (i - off) / pitch, c = (i - off) % pitch; if (r < d.output_height && c < rowb) inside = 1; }
+    if (!inside && field[i] != 0xEE) {
+      long r = i >= (size_t)off ? (long)((i - off) / pitch) : -1; long c = i >= (size_t)off ? (long)((i - off) % pitch) : (long)i - off;
+      snprintf(msg, sizeof(msg), "byte %ld of row %ld (row size %zu, rows start %d bytes into the buffer) was written by jpeg_read_scanlines (colourspace %d, dither %d, fancy %d, width %u)", c, r, rowb, off, cs, dither, fancy, d.output_width);
+      bad = msg;
+    }
+  }
+  (void)x; (void)y;
+  jpeg_abort_decompress(&d);
+  jpeg_destroy_decompress(&d);
+  printf("R skip ok\n");
+  if (bad) printf("O fail g11r: %s\n", bad); else printf("O ok\n");
+  free(field); free(rgb); tj3Free(jb); tj3Destroy(hc);
+  return 1;
+}
+
 static int dispatch_c11(toks_t *t)
 {
+  if (!strcmp(t->tok[0], "g11r") && t->n >= 12) return c11_g11r(t);
   if (!strcmp(t->tok[0], "g11d") && t->n >= 12) return c11_g11d(t);
   if (!strcmp(t->tok[0], "g11c") && t->n >= 10) return c11_g11c(t);
   if (!strcmp(t->tok[0], "g11y") && t->n >= 8) return c11_g11y(t);
